@@ -213,7 +213,7 @@ def d3_reader(chk, repo):
             pt = path_term(v, st)
             wants = v.spec("a != 'field' and a != 'valid' and a not in ['norm']", env={"a": arg})
             wants2 = v.spec("a != 'field' and a != 'valid' and a != 'norm'", env={"a": arg})
-            chk.ob("io.vtk._from_vtk::labels-are-the-remaining-arrays", cond_equiv(v, pt, wants) or cond_equiv(v, pt, wants2), "C16.D3",
+            chk.ob("io.vtk._from_vtk::labels-are-the-remaining-arrays", reached_iff(v, st, wants) or reached_iff(v, st, wants2), "C16.D3",
                    f"an array name becomes a label under {v.show(pt)[:200]}; expected: it is none of field, valid, norm", v.f, st)
     # reader kind follows the file header
     xml = find_assign(v, lambda t_, s_: (v.ctx.head_of(t_) or ("", ""))[:2] == ("cmp", "in") and any(is_str(v.ctx, x, "xml") for x in v.ctx.args_of(t_)))
@@ -384,10 +384,14 @@ def d6_legacy_details(chk, repo):
     if set(got) == {"count", "first", "step"}:
         st = got["step"][1]
         pt = path_term(l, st)
-        member = [p_ for p_, f_ in l.cfg.enclosing(st) if isinstance(p_, ast.If)]
-        mts = [l.ev.term(m_.test, at=m_) for m_ in member]
-        mts = [t_ for t_ in mts if (l.ctx.head_of(t_) or ("", ""))[:2] == ("cmp", "in")]
-        okc = bool(mts) and cond_equiv(l, pt, l.ev._bool("and", [mts[-1], l.spec("len(c) > 1", env={"c": coords})]),
+        from ..lib import if_stmt_of as _ifs
+        mts = []
+        for test_, pol_, syn_ in l.cfg.must_literals(st):
+            t_ = l.ev.term(test_, at=_ifs(l, test_))
+            t_ = t_ if pol_ else l.ev._not(t_)
+            if (l.ctx.head_of(t_) or ("", ""))[:2] == ("cmp", "in"):
+                mts.append(t_)
+        okc = bool(mts) and reached_iff(l, st, l.ev._bool("and", [mts[-1], l.spec("len(c) > 1", env={"c": coords})]),
                                        [l.spec("len(c)", env={"c": coords})])
         chk.ob("io.vtk._from_vtk_legacy::spacing-needs-two-points", okc, "C16.D6",
                f"the spacing is taken under {l.show(pt)[:160]}; expected: the line belongs to a coordinate marker and has at least two "
@@ -426,7 +430,7 @@ def d6_legacy_details(chk, repo):
                 for s2 in walk_stmts(st.body):
                     if isinstance(s2, ast.Assign) and isinstance(s2.targets[0], ast.Subscript):
                         dl = l.ctx.mk(("iter", ()), (sl,))
-                        okd = cond_equiv(l, path_term(l, s2), l.spec("not x[0].isalpha()", env={"x": dl})) and \
+                        okd = reached_iff(l, s2, l.spec("not x[0].isalpha()", env={"x": dl})) and \
                             l.eq(l.term(s2.value, at=s2), l.spec("list(map(float, x.split()))", env={"x": dl}))
                         chk.ob("io.vtk._from_vtk_legacy::data-lines", okd, "C16.D6",
                                f"`{l.src(s2)}` under {l.show(path_term(l, s2))[:120]}; expected: numeric lines (not starting with a "
